@@ -139,6 +139,17 @@ REGISTRY["C02"] = dict(
     explanation="Clauses C02-a..e of DESIGN.md §3 on MIR/HIR facts of the current tree; known findings list the traversals whose order reaches output. NOT decided: allocator-address channels (Arc::ptr_eq), unique-id() distinctness, concurrency as executed.",
     assumptions=TRUSTED + ["HashMap/HashSet iteration order is unspecified; BTreeMap order follows the key's Ord, which for Identifier is the interner key"],
 )
+REGISTRY["C06"] = dict(
+    module="c06",
+    level="other",
+    technique="static analysis: who-may-read rule for the style flag (Options::is_compressed / Options.style) and for serializer entry points called with the user's Options, over the resolved call graph",
+    claim=(
+        "Style-flag confinement: outside serializer.rs/lib.rs no function reads the output style, passes a non-constant style to Value::to_css_string/Number::to_string, or serializes text for SassScript with the caller's Options; "
+        "the compressed comment-retention predicate is exactly `/*!`. Each function that does is a separate finding. NOT decided: that expanded and compressed outputs are equivalent CSS."
+    ),
+    explanation="Clauses of DESIGN.md §3 C06 on MIR facts of the current tree; the evaluation-time readers of the style flag on the pinned tree are listed as known findings, each with an input whose SassScript-visible result differs between styles. NOT decided: CSS equivalence of the two outputs.",
+    assumptions=TRUSTED,
+)
 
 UNBUILT = "check not built yet in this session (design in DESIGN.md §3); not claimed until its rules run clean on the pinned tree"
 NOT_APPLICABLE = {
